@@ -17,6 +17,8 @@ import (
 type asaDev struct {
 	Unknown []string            // lines the tool does not model, verbatim
 	Intfs   [][2]string         // hardware name, nameif
+	Shut    map[string]bool     // nameif -> shutdown
+	Opaque  []opaqueObj         // VPN objects kept verbatim (tunnel-group / group-policy); may reference ACLs and each other
 	Groups  map[string][]string // object-group network NAME -> member texts
 	GOrder  []string
 	ACLs    map[string][]string // NAME -> line bodies (text after "extended ")
@@ -25,8 +27,26 @@ type asaDev struct {
 	Routes  []string          // text after "route "
 }
 
+type opaqueObj struct {
+	Header string   // e.g. "group-policy VPN-DRC-0 attributes"
+	Subs   []string // e.g. "vpn-filter value acl-DRC-0"
+}
+
 func newDev() *asaDev {
-	return &asaDev{Groups: map[string][]string{}, ACLs: map[string][]string{}, Bind: map[string]string{}}
+	return &asaDev{Groups: map[string][]string{}, ACLs: map[string][]string{}, Bind: map[string]string{}, Shut: map[string]bool{}}
+}
+
+// opaqueRefs tells whether some kept VPN object references the named ACL / group-policy.
+func (d *asaDev) opaqueRefs(name string) bool {
+	for _, o := range d.Opaque {
+		for _, s := range o.Subs {
+			f := strings.Fields(s)
+			if len(f) > 0 && f[len(f)-1] == name {
+				return true
+			}
+		}
+	}
+	return false
 }
 
 func (d *asaDev) clone() *asaDev {
@@ -45,6 +65,12 @@ func (d *asaDev) clone() *asaDev {
 		c.Bind[k] = v
 	}
 	c.Routes = append([]string{}, d.Routes...)
+	for k, v := range d.Shut {
+		c.Shut[k] = v
+	}
+	for _, o := range d.Opaque {
+		c.Opaque = append(c.Opaque, opaqueObj{o.Header, append([]string{}, o.Subs...)})
+	}
 	return c
 }
 
@@ -55,7 +81,11 @@ func (d *asaDev) print(withIntf bool) string {
 	}
 	if withIntf {
 		for _, i := range d.Intfs {
-			fmt.Fprintf(&sb, "interface %s\n nameif %s\n", i[0], i[1])
+			fmt.Fprintf(&sb, "interface %s\n", i[0])
+			if d.Shut[i[1]] {
+				sb.WriteString(" shutdown\n")
+			}
+			fmt.Fprintf(&sb, " nameif %s\n", i[1])
 		}
 	}
 	for _, g := range d.GOrder {
@@ -80,6 +110,12 @@ func (d *asaDev) print(withIntf bool) string {
 	}
 	for _, r := range d.Routes {
 		fmt.Fprintf(&sb, "route %s\n", r)
+	}
+	for _, o := range d.Opaque {
+		sb.WriteString(o.Header + "\n")
+		for _, s := range o.Subs {
+			sb.WriteString(" " + s + "\n")
+		}
 	}
 	return sb.String()
 }
@@ -226,6 +262,9 @@ func (e *executor) exec1(cmd string) error {
 		if d.aclBound(n) {
 			return fmt.Errorf("access-list %s is still bound", n)
 		}
+		if d.opaqueRefs(n) {
+			return fmt.Errorf("access-list %s is still referenced by a group-policy", n)
+		}
 		delete(d.ACLs, n)
 		d.AOrder = remove(d.AOrder, n)
 		return nil
@@ -315,6 +354,32 @@ func (e *executor) exec1(cmd string) error {
 			return fmt.Errorf("route does not exist: %s", r)
 		}
 		d.Routes = remove(d.Routes, r)
+		return nil
+	}
+	// VPN objects are kept verbatim: `clear configure group-policy N`, `clear configure tunnel-group N`, `no group-policy …`
+	if (strings.HasPrefix(cmd, "clear configure group-policy ") || strings.HasPrefix(cmd, "clear configure tunnel-group ") ||
+		strings.HasPrefix(cmd, "no group-policy ") || strings.HasPrefix(cmd, "no tunnel-group ")) && len(w) >= 3 {
+		name := w[len(w)-1]
+		if strings.HasPrefix(cmd, "no ") {
+			name = w[2]
+		}
+		if strings.Contains(cmd, "group-policy") && d.opaqueRefs(name) {
+			return fmt.Errorf("group-policy %s is still referenced", name)
+		}
+		var keep []opaqueObj
+		found := false
+		for _, o := range d.Opaque {
+			f := strings.Fields(o.Header)
+			if len(f) >= 2 && f[1] == name && strings.Contains(cmd, f[0]) {
+				found = true
+				continue
+			}
+			keep = append(keep, o)
+		}
+		if !found {
+			return fmt.Errorf("object to delete does not exist: %s", cmd)
+		}
+		d.Opaque = keep
 		return nil
 	}
 	return fmt.Errorf("command outside the modelled fragment: %s", cmd)
